@@ -98,7 +98,8 @@ FaultFails(f, n) ==
 ReadFails(c) ==
   LET input == Bytes(c.input) d == DecBatch(TT, input) IN
   IF ~d.ok THEN {"harness_input_not_well_formed"}
-  ELSE IF c.src = "spec" /\ input # EncNew(TT, c.p, JRecs(c.recs)) THEN {"harness_input_mismatch"}
+  ELSE IF c.src = "spec" /\ input # (IF c.given THEN EncGiven(TT, c.p, JRecs(c.recs)) ELSE EncNew(TT, c.p, JRecs(c.recs)))
+       THEN {"harness_input_mismatch"}
   ELSE IF c.rout # "ok" THEN {"reader_rejected_well_formed_batch"}
   ELSE
   LET kb == c.rbatch db == d.batch
@@ -127,8 +128,8 @@ Next ==
   /\ ci <= N
   /\ LET c == Cases[ci] IN
      IF c.mode = "enc" THEN
-       LET recs == JRecs(c.recs) b == EncNew(TT, c.p, recs) IN
-       PrintT(ToJson([id |-> c.id, dom |-> NewBatchDomain(c.p, recs), b |-> PrintBytes(b)]))
+       LET recs == JRecs(c.recs) b == IF c.given THEN EncGiven(TT, c.p, recs) ELSE EncNew(TT, c.p, recs) IN
+       PrintT(ToJson([id |-> c.id, dom |-> (c.given \/ NewBatchDomain(c.p, recs)), b |-> PrintBytes(b)]))
      ELSE PrintT(ToJson([id |-> c.id, fails |-> IF c.mode = "new" THEN NewFails(c) ELSE ReadFails(c)]))
   /\ ci' = ci + 1 /\ T' = T
 Spec == Init /\ [][Next]_vars
